@@ -458,7 +458,7 @@ func genVersionHistory(rng interface{ Intn(int) int }, keys []string, n int) []v
 
 func runC05(c *Ctx) {
 	r := c.R
-	exhLen := r.Pick(5, 7)
+	exhLen := r.Pick(5, 8)
 	r.SetRule(fmt.Sprintf("bounded-exhaustive: every history of length %d over {put, delete, delete-version(newest), delete-version(oldest), enable, suspend} on one key from a never-versioned bucket; random: histories of 20-60 steps over 3 keys incl. multi-delete with and without version ids and unknown ids; after every step every version id ever handed out is read by GET and HEAD ?versionId and every key is read unqualified (GET+HEAD) and compared with VersionModel; memory backend; distinct = distinct step sequences", exhLen))
 	r.Exhaustive(true)
 	alpha := []vstep{{Op: "put", Key: "vk"}, {Op: "delete", Key: "vk"}, {Op: "delete-version", Key: "vk", Which: 0}, {Op: "delete-version", Key: "vk", Which: 9},
